@@ -362,7 +362,14 @@ def run(tier):
               (4, [("ranges", "rangelist", [(0x100, 0x110), (0x200, 0x220)])], [(0x100, 0x110), (0x200, 0x220)]),
               (4, [("ranges", "rangelist", [(0x100, 0x110), (0x110, 0x120)])], [(0x100, 0x110), (0x110, 0x120)]),
               (3, [("ranges", "rangelist", [(0x300, 0x340), (0x320, 0x330), (0x100, 0x101)])], [(0x300, 0x340), (0x320, 0x330), (0x100, 0x101)]),
-              (4, [("ranges", "rangelist", [(0x500, 0x510), (0x508, 0x520)])], [(0x500, 0x510), (0x508, 0x520)])]
+              (4, [("ranges", "rangelist", [(0x500, 0x510), (0x508, 0x520)])], [(0x500, 0x510), (0x508, 0x520)]),
+              # DWARF 5: the low address behind an index, the ranges in .debug_rnglists by offset and by index
+              (5, [("low", "addrx", 0x1000), ("high", "data8", 0x20)], [(0x1000, 0x1020)]),
+              (5, [("low", "addrx1", 2**63), ("high", "udata", 0xff)], [(2**63, 2**63 + 0xff)]),
+              (5, [("ranges", "rangelist", [(0x300, 0x340), (0x320, 0x330), (0x100, 0x101)])], [(0x300, 0x340), (0x320, 0x330), (0x100, 0x101)]),
+              (5, [("ranges", "rnglistx", [("start_length", 0x100, 0x10), ("base_addressx", 0x1000), ("offset_pair", 0, 0x20), ("startx_endx", 0x110, 0x120)])],
+               [(0x100, 0x110), (0x1000, 0x1020), (0x110, 0x120)]),
+              (5, [("ranges", "rnglistx", [("startx_length", 0x500, 0x10), ("start_end", 0x508, 0x520)])], [(0x500, 0x510), (0x508, 0x520)])]
     ATC = {"low": 0x11, "high": 0x12, "ranges": 0x55}
     aunits, aexp = [], {}
     for k, (ver, ats, pairs) in enumerate(acases):
